@@ -289,11 +289,14 @@ class SymReal(object):
 
     def __truediv__(self, o):
         o = SymReal.lift(o)
-        if o.den is not None:
-            raise Unsupported("division by a fraction")
         # the real code would raise ZeroDivisionError on 0.0: make that a decision
         if _decide(o.e == 0):
             raise ZeroDivisionError("float division by zero")
+        if o.den is not None:
+            # (a/b) / (c/d) = a*d / (b*c)
+            num = self.e * o.den
+            den = o.e if self.den is None else self.den * o.e
+            return SymReal(num, den, None, self.size + o.size + 2)
         den = o.e if self.den is None else self.den * o.e
         sg = self.sg if (o.sg == "p") else None
         return SymReal(self.e, den, sg, self.size + o.size)
@@ -442,3 +445,140 @@ def make_sym_float(is_param):
             return p
         return builtins.float(x)
     return sym_float
+
+
+# ---------------------------------------------------------------------------------------------
+# log-domain proxy: a value log(x) represented by its linear image x (a SymReal >= 0).
+# exp/log are treated as exact, monotone, mutually inverse bijections between [-inf, +inf) and
+# [0, +inf); constants next to 0 / -1e100 are read as infinitesimally close to log 1 / log 0.
+
+def _lin_of_const(c):
+    """(linear value, side) of a float constant used in log space."""
+    if isinstance(c, bool) or not isinstance(c, (int, float)):
+        raise Unsupported("log-space constant %r" % (c,))
+    if c == float("-inf") or c <= -1e50:
+        return 0, (0 if c == float("-inf") else 1)       # exp(-1e100) = 0 + eps
+    if c == 0:
+        return 1, 0
+    if abs(c) < 1e-6:
+        return 1, (1 if c > 0 else -1)                   # exp(+-1e-12) = 1 +- eps
+    raise Unsupported("log-space constant %r" % (c,))
+
+
+class LogVal(object):
+    __slots__ = ("lin",)
+
+    def __init__(self, lin):
+        self.lin = SymReal.lift(lin)
+
+    @staticmethod
+    def lift(x):
+        if isinstance(x, LogVal):
+            return x
+        k, side = _lin_of_const(x)
+        if side != 0:
+            raise Unsupported("arithmetic with tolerance constant %r in log space" % (x,))
+        return LogVal(k)
+
+    def __add__(self, o):
+        return LogVal(self.lin * LogVal.lift(o).lin)
+
+    __radd__ = __add__
+
+    def __sub__(self, o):
+        return LogVal(self.lin / LogVal.lift(o).lin)
+
+    def __rsub__(self, o):
+        return LogVal(LogVal.lift(o).lin / self.lin)
+
+    def _cmp(self, op, o):
+        if isinstance(o, LogVal):
+            return getattr(self.lin, _OPS[op])(o.lin)
+        k, side = _lin_of_const(o)
+        # compare lin with k + side*eps
+        a = self.lin.z3()
+        b = rv(k)
+        if op == "<":
+            e = a <= b if side > 0 else a < b
+        elif op == "<=":
+            e = a < b if side < 0 else a <= b
+        elif op == ">":
+            e = a >= b if side < 0 else a > b
+        elif op == ">=":
+            e = a > b if side > 0 else a >= b
+        elif op == "==":
+            e = (a == b) if side == 0 else z3.BoolVal(False)
+        else:
+            e = (a != b) if side == 0 else z3.BoolVal(True)
+        return SymBool(e)
+
+    def __lt__(self, o):
+        return self._cmp("<", o)
+
+    def __le__(self, o):
+        return self._cmp("<=", o)
+
+    def __gt__(self, o):
+        return self._cmp(">", o)
+
+    def __ge__(self, o):
+        return self._cmp(">=", o)
+
+    def __eq__(self, o):
+        if o is None or isinstance(o, (str, tuple, list)) or callable(o):
+            return False
+        return self._cmp("==", o)
+
+    def __ne__(self, o):
+        if o is None or isinstance(o, (str, tuple, list)) or callable(o):
+            return True
+        return self._cmp("!=", o)
+
+    __hash__ = object.__hash__
+
+    def __float__(self):
+        raise Unsupported("float() of a symbolic log value")
+
+    def __repr__(self):
+        return "LogVal(log %r)" % (self.lin,)
+
+
+_OPS = {"<": "__lt__", "<=": "__le__", ">": "__gt__", ">=": "__ge__", "==": "__eq__", "!=": "__ne__"}
+
+
+class MathShim(object):
+    """Replacement for the `math` module global of a problog module: exp/log/log1p on proxies,
+    everything else (and every concrete argument) goes to the real math module."""
+
+    def __init__(self):
+        import math as _m
+        self._m = _m
+
+    def __getattr__(self, name):
+        return getattr(self._m, name)
+
+    def exp(self, x):
+        if isinstance(x, LogVal):
+            return x.lin
+        if isinstance(x, SymReal):
+            raise Unsupported("exp of a symbolic real")
+        return self._m.exp(x)
+
+    def log(self, x):
+        if isinstance(x, SymReal):
+            if _decide(x.z3() <= 0):
+                raise ValueError("math domain error")
+            return LogVal(x)
+        if isinstance(x, LogVal):
+            raise Unsupported("log of a log value")
+        return self._m.log(x)
+
+    def log1p(self, x):
+        if isinstance(x, SymReal):
+            y = 1 + x
+            if _decide(y.z3() <= 0):
+                raise ValueError("math domain error")
+            return LogVal(y)
+        if isinstance(x, LogVal):
+            raise Unsupported("log1p of a log value")
+        return self._m.log1p(x)
